@@ -98,6 +98,9 @@ func protMats(name string) (*mat.Dense, []float64) {
 	panic(harnessPanic("harness: unknown protein matrix " + name))
 }
 
+var protPool = map[string]*mprot.ProtModel{}
+var protCalls = map[string]int{}
+
 func runMarkov(env *Env, id string, c markovCase) {
 	ev := markovEvent{ID: id, Model: c.Model, P: c.P, Pi: c.Pi, Ts: []string{}, R: [][]string{}, PM: [][][]string{}, Pe: [][][]string{}, Sums: [][]int{}, Expm: []int{}}
 	func() {
@@ -186,10 +189,19 @@ func runMarkov(env *Env, id string, c markovCase) {
 			}
 			code := map[string]int{"dayhoff": mprot.MODEL_DAYHOFF, "jtt": mprot.MODEL_JTT, "mtrev": mprot.MODEL_MTREV, "lg": mprot.MODEL_LG,
 				"wag": mprot.MODEL_WAG, "hivb": mprot.MODEL_HIVB, "ab": mprot.MODEL_AB}[c.Model]
-			pm, e2 := mprot.NewProtModel(code, false, 1.0)
-			if e2 != nil {
-				err = e2
-				break
+			// every other case of a matrix re-initialises the object of the previous one (other frequencies), as the
+			// nucleotide cases do: nothing of the earlier initialisation may be left in the new rates
+			protCalls[c.Model]++
+			pm, have := protPool[c.Model]
+			if !have || protCalls[c.Model]%2 == 1 {
+				var e2 error
+				if pm, e2 = mprot.NewProtModel(code, false, 1.0); e2 != nil {
+					err = e2
+					break
+				}
+				protPool[c.Model] = pm
+			} else {
+				ev.Reuse = true
 			}
 			var user []float64
 			if len(pi) == 20 {
